@@ -474,6 +474,41 @@ func genC14(o genOpts) error {
 		msgs = append(msgs, randBytes(r, 1+r.Intn(64)))
 	}
 
+	// ---- freshly GENERATED signers (the keys above are decoded from seeds / stored key files): what Generate() hands out
+	// is the same value as what its encoding decodes to and its formatted string parses to
+	for alg := 0; alg < 2; alg++ {
+		var gs principal.Signer
+		var gerr error
+		if alg == 0 {
+			gs, gerr = edsigner.Generate()
+		} else {
+			gs, gerr = rsasigner.Generate()
+		}
+		failG := func(what string) {
+			direct = append(direct, c14Direct{"principal-roundtrip", fmt.Sprintf("generated key (alg %d): %s", alg, what), map[string]any{"alg": alg}})
+		}
+		if gerr != nil {
+			failG("Generate fails: " + gerr.Error())
+			continue
+		}
+		if d, err := algDecodeSigner(alg, gs.Encode()); err != nil || !bytes.Equal(d.Encode(), gs.Encode()) || d.DID() != gs.DID() {
+			failG("signer Decode(Encode(s)) differs")
+		} else if why := sameSigner(gs, d); why != "" {
+			failG("signer Decode(Encode(s)) differs: " + why)
+		}
+		if str, err := algFormatSigner(alg, gs); err != nil {
+			failG("signer Format fails")
+		} else if d, err := algParseSigner(alg, str); err != nil || !bytes.Equal(d.Encode(), gs.Encode()) {
+			failG("signer Parse(Format(s)) differs")
+		} else if why := sameSigner(gs, d); why != "" {
+			failG("signer Parse(Format(s)) differs: " + why)
+		}
+		msg := []byte("generated signer")
+		if !gs.Verifier().Verify(msg, gs.Sign(msg)) {
+			failG("the generated signer's verifier refuses its signature")
+		}
+	}
+
 	// ---- direct (implementation-only) representation round trips: the property itself
 	rtChecks := 0
 	for i, k := range keys {
@@ -485,6 +520,8 @@ func genC14(o genOpts) error {
 		rtChecks++
 		if err != nil || !bytes.Equal(s2.Encode(), k.sb) || s2.DID() != k.signer.DID() {
 			fail("signer Decode(Encode(s)) differs")
+		} else if why := sameSigner(k.signer, s2); why != "" {
+			fail("signer Decode(Encode(s)) differs: " + why)
 		}
 		str, err := algFormatSigner(k.alg, k.signer)
 		rtChecks++
@@ -492,17 +529,23 @@ func genC14(o genOpts) error {
 			fail("signer Format fails")
 		} else if s3, err := algParseSigner(k.alg, str); err != nil || !bytes.Equal(s3.Encode(), k.sb) || s3.DID() != k.signer.DID() {
 			fail("signer Parse(Format(s)) differs")
+		} else if why := sameSigner(k.signer, s3); why != "" {
+			fail("signer Parse(Format(s)) differs: " + why)
 		}
 		v := k.signer.Verifier()
 		v2, err := algDecodeVerifier(k.alg, k.vb)
 		rtChecks++
 		if err != nil || !bytes.Equal(v2.Encode(), k.vb) || v2.DID() != v.DID() {
 			fail("verifier Decode(Encode(v)) differs")
+		} else if v2.Code() != v.Code() || !bytes.Equal(v2.Raw(), v.Raw()) {
+			fail("verifier Decode(Encode(v)) differs: Code() / Raw()")
 		}
 		v3, err := algParseVerifier(k.alg, k.didStr)
 		rtChecks++
 		if err != nil || !bytes.Equal(v3.Encode(), k.vb) || v3.DID() != v.DID() {
 			fail("verifier Parse(DID string) differs")
+		} else if v3.Code() != v.Code() || !bytes.Equal(v3.Raw(), v.Raw()) {
+			fail("verifier Parse(DID string) differs: Code() / Raw()")
 		}
 		rtChecks++
 		if v.DID() != k.signer.DID() || v.DID().String() != k.didStr {
@@ -1172,4 +1215,28 @@ func c14Replay(args []string) int {
 		return 2
 	}
 	return 0
+}
+
+
+// sameSigner: every observable of the two signers agrees (not only Encode and DID)
+func sameSigner(a, b principal.Signer) string {
+	switch {
+	case a.Code() != b.Code():
+		return "Code()"
+	case !bytes.Equal(a.Raw(), b.Raw()):
+		return "Raw()"
+	case a.SignatureCode() != b.SignatureCode():
+		return "SignatureCode()"
+	case a.SignatureAlgorithm() != b.SignatureAlgorithm():
+		return "SignatureAlgorithm()"
+	case !bytes.Equal(a.Verifier().Encode(), b.Verifier().Encode()):
+		return "Verifier().Encode()"
+	case !bytes.Equal(a.Verifier().Raw(), b.Verifier().Raw()):
+		return "Verifier().Raw()"
+	case a.Verifier().Code() != b.Verifier().Code():
+		return "Verifier().Code()"
+	case a.Verifier().DID() != b.Verifier().DID():
+		return "Verifier().DID()"
+	}
+	return ""
 }
